@@ -6,7 +6,7 @@ identifier (fresh / in use by the same type / by another type / mentioned
 only).  Namespace invariants in every state, NotUniqueError + unchanged state
 on every clash, exact textual substitution on every successful rename."""
 import gfapy
-from .. import explore, observe
+from .. import explore, observe, universe
 from ..ref import doc as refdoc
 from . import c05, c08
 
@@ -224,6 +224,14 @@ def run(ctx):
   done = {}
   for name, dpt in plan:
     done[name] = explore.bfs(ctx, explore.SPECS[name], dpt)[0]
+  # the same search from NON-initial states: the whole universe loaded
+  if not ctx.slice:
+    d2 = 2 if ctx.quick else 3
+    for name in ("c09.g1", "c09.g2"):
+      sp = explore.SPECS[name]
+      done[name + "@full"] = explore.bfs(
+          ctx, sp, d2, label=name + "@full",
+          prefix=universe.full_prefix(sp.version))[0]
   ctx.traces = ctx.transitions
   ctx.bound_completed = done
 
